@@ -164,7 +164,9 @@ def run(prog: Program, rep, thorough: bool) -> None:
     else:
         rep.ok('C03.R2', sr.where, f'interpolated rows ({interp} case(s)): x = record distance exactly')
         rep.ok('C03.R2', sr.where, 'interpolated rows are flagged RANGE')
-    # record distance: starts at 0, advances only by range_step
+    # record distance: a multiple of the step by induction over every store (value classes over reaching definitions:
+    # zero, the step, distance + n * step, integer, anything)
+    from .flow import StepClasses
     fc = prog.cls(C.M_TC, '_TrajectoryDataFilter')
     bad = []
     n_st = 0
@@ -172,21 +174,26 @@ def run(prog: Program, rep, thorough: bool) -> None:
         if s_.attr != 'next_record_distance':
             continue
         n_st += 1
-        p_ = parent(s_.node)
-        if isinstance(p_, ast.AugAssign) and isinstance(p_.op, ast.Add) and norm(p_.value) == f'{norm(s_.base)}.range_step':
+        if s_.func is None or s_.form != 'assign' or not isinstance(s_.base, ast.Name):
+            bad.append((s_, 'a store the rule cannot follow'))
             continue
-        if isinstance(p_, (ast.Assign, ast.AnnAssign)) and isinstance(p_.value, ast.Constant) and p_.value.value == 0 \
-                and s_.func is not None and s_.func.name == '__init__':
-            continue
-        bad.append(s_)
-    if bad or n_st < 2:
-        s0 = bad[0] if bad else None
-        rep.fail('C03.R2', tc.path, s0.node.lineno if s0 else fc.node.lineno, s0.func.qualname if s0 and s0.func else fc.name,
+        sc = StepClasses(prog, s_.func, s_.base.id, 'next_record_distance', 'range_step')
+        cls_ = sc.store_class(s_.node)
+        if s_.func.name == '__init__' and s_.func.cls is fc:
+            if cls_ != 'Z':
+                bad.append((s_, 'the first record distance is not 0'))
+        elif cls_ not in ('Z', 'S', 'M'):
+            bad.append((s_, 'not (record distance + whole steps)'))
+    if n_st < 2:
+        raise AnalysisError('the stores of the record distance were not found')
+    if bad:
+        s0, why0 = bad[0]
+        rep.fail('C03.R2', s0.module.path, s0.node.lineno, s0.func.qualname if s0.func else fc.name,
                  'record-distance-store',
-                 f'the record distance is set by `{norm(parent(s0.node))[:60]}`: rows no longer fall on multiples of the step'
-                 if s0 else 'record distance stores not found')
+                 f'the record distance is set by `{norm(parent(s0.node))[:60]}` ({why0}): rows no longer fall on multiples of the step')
     else:
-        rep.ok('C03.R2', f'{tc.path}:{fc.node.lineno}', f'record distance: 0 at construction, then += range_step only ({n_st} stores)')
+        rep.ok('C03.R2', f'{tc.path}:{fc.node.lineno}', f'record distance: 0 at construction, every other store keeps it a multiple '
+               f'of range_step ({n_st} stores, value classes over reaching definitions)')
     F = IntegrateFacts(prog)
     rc = F.record_calls[0] if F.record_calls else None
     ctor = [c for c in ast.walk(F.func.node) if isinstance(c, ast.Call) and norm(c.func) == '_TrajectoryDataFilter']
@@ -422,6 +429,12 @@ def check_extra_rows(prog: Program, rep, F: IntegrateFacts, rule: str) -> None:
                      'a row is built before the integration loop, outside the recording call')
             continue
         n_post += 1
+        reach = {F.cfg.nodes[i] for i in F.cfg.reachable_from(node)}
+        normal_exit = any(isinstance(x.ast, ast.Return) for x in reach) or any(
+            p_ in reach and not isinstance(p_.ast, (ast.Raise, ast.Return)) for p_, _l in F.cfg.exit.pred)
+        if not normal_exit:
+            rep.ok(rule, tc.where(call), 'the row after the loop leaves only inside an exception (the card of an abnormal stop, C04)')
+            continue
         app = getattr(call, '_parent', None)
         lst = app.func.value.id if isinstance(app, ast.Call) and isinstance(app.func, ast.Attribute) \
             and isinstance(app.func.value, ast.Name) else None
